@@ -304,13 +304,24 @@ class CallStack(deque):
 
         graph = cells.model.tracegraph
         if cells.is_cached and graph.has_node(node):
+            if self and self.idxstack[-1] >= 0:
+                # A caller that handles the error still depends on
+                # everything the failed node had used
+                caller = self[self.idxstack[-1]]
+                for pred in list(graph.predecessors(node)):
+                    graph.add_edge(pred, caller)
             graph.remove_node(node)
 
+        refs = []
         while self.refstack:
             if self.refstack[-1][0] == self.counter:
                 _, ref = self.refstack.pop()
+                refs.append(ref)
             else:
                 break
+        if self:    # hand the references it read over to the caller
+            while refs:
+                self.refstack.append((self.counter - 1, refs.pop()))
 
     def tracemessage(self, maxlen=6):
         """ Not Used?
